@@ -12,6 +12,7 @@ import SkNet.Lemmas.TopologyCore
 import SkNet.Lemmas.TopologyCoreSpec
 import SkNet.Lemmas.TopologyFinset
 import SkNet.Lemmas.TopologyParFor
+import SkNet.Lemmas.TopologyRelabel
 import Mathlib.Tactic.Ring
 import Mathlib.Tactic.FieldSimp
 import Mathlib.Algebra.Order.Field.Rat
@@ -504,6 +505,102 @@ example : ∀ sch, (none : Option Schedule) = some sch → sch.Valid 5 := by int
 
 example : ∀ sch, some (staticSchedule 5 3) = some sch → sch.Valid 5 := by
   intro sch h; cases h; exact staticSchedule_valid 5 3
+
+/-! ### renumbering the nodes (for C02)
+
+`π`, `πinv` are inverse bijections of `{0..n-1}` (`SkNet.WL.IsPerm n π πinv`); new node `π v` is old node `v`, so the
+renumbered adjacency predicate is `relabel πinv adj i j = adj (πinv i) (πinv j)` and the renumbered matrix is
+`fun i j => val (πinv i) (πinv j)`. -/
+
+/-- the rotation of three nodes, used as the non-vacuity witness of this section -/
+example : SkNet.WL.IsPerm 3 (fun i => (i + 1) % 3) (fun i => (i + 2) % 3) :=
+  ⟨by decide, by decide, by decide, by decide⟩
+
+/-- ★ `cliques_relabel_invariant` (specification level): the number of `k`-cliques of the renumbered graph is the
+    number of `k`-cliques of the graph, for every `k` -/
+theorem cliques_relabel_invariant_spec {n : Nat} {π πinv : Nat → Nat} (hp : SkNet.WL.IsPerm n π πinv)
+    (adj : Nat → Nat → Bool) (hsym : ∀ a b, adj a b = adj b a) (k : Nat) :
+    cliqueCount n (relabel πinv adj) k = cliqueCount n adj k :=
+  cliqueCount_relabel hp adj hsym k
+
+/-- ★ `triangles_relabel_invariant`: `count_triangles` of the renumbered matrix equals `count_triangles` of the
+    matrix — for every square matrix (the symmetrisation `A + Aᵀ` commutes with the renumbering), sequentially and
+    under any two valid schedules of the parallel loop -/
+theorem triangles_relabel_invariant {n : Nat} {π πinv : Nat → Nat} (hp : SkNet.WL.IsPerm n π πinv)
+    (val : Nat → Nat → Rat) (s s' : Option Schedule) (hs : ∀ sch, s = some sch → sch.Valid n)
+    (hs' : ∀ sch, s' = some sch → sch.Valid n) :
+    countTriangles n n (fun i j => val (πinv i) (πinv j)) s = countTriangles n n val s' := by
+  have key : ∀ (w : Nat → Nat → Rat) (t : Option Schedule), (∀ sch, t = some sch → sch.Valid n) →
+      countTriangles n n w t = .ok (cliqueCount n (symEdge w) 3) := by
+    intro w t ht
+    cases t with
+    | none => exact triangles_exact n w
+    | some sch => exact triangles_parallel_exact n w sch (ht sch rfl)
+  rw [key _ s hs, key _ s' hs']
+  have hrel : symEdge (fun i j => val (πinv i) (πinv j)) = relabel πinv (symEdge val) := rfl
+  have hsym : ∀ a b, symEdge val a b = symEdge val b a := by
+    intro a b; unfold symEdge; rw [Rat.add_comm]
+  rw [hrel, cliqueCount_relabel hp (symEdge val) hsym 3]
+
+example : ∀ sch, (none : Option Schedule) = some sch → sch.Valid 3 := by intro sch h; cases h
+
+/-- ★ `cliques_relabel_invariant`: `count_cliques(k)` of the renumbered graph equals `count_cliques(k)` of the graph,
+    for every `k` (both refuse `k < 2`), whatever CSR representation (row order) either graph is stored in -/
+theorem cliques_relabel_invariant {n : Nat} {π πinv : Nat → Nat} (hp : SkNet.WL.IsPerm n π πinv)
+    (adj : Nat → Nat → Bool) (hsym : ∀ a b, adj a b = adj b a) (k : Nat)
+    (indptr indices indptr' indices' : List Nat) (hcsr : IsCsrOf n adj indptr indices)
+    (hcsr' : IsCsrOf n (relabel πinv adj) indptr' indices') :
+    countCliques n ⟨indptr', indices'⟩ (relabel πinv adj) k = countCliques n ⟨indptr, indices⟩ adj k := by
+  by_cases hk : 2 ≤ k
+  · rw [count_cliques_exact_csr n _ (relabel_symm πinv adj hsym) k hk indptr' indices' hcsr',
+      count_cliques_exact_csr n adj hsym k hk indptr indices hcsr, cliqueCount_relabel hp adj hsym k]
+  · unfold countCliques
+    rw [if_pos (by omega), if_pos (by omega)]
+
+/-- the canonical CSR structures are instances of the hypotheses of `cliques_relabel_invariant` -/
+example (n : Nat) (adj : Nat → Nat → Bool) (πinv : Nat → Nat) :
+    IsCsrOf n adj (csrOfEdge n adj).indptr (csrOfEdge n adj).indices ∧
+      IsCsrOf n (relabel πinv adj) (csrOfEdge n (relabel πinv adj)).indptr (csrOfEdge n (relabel πinv adj)).indices :=
+  ⟨csrOfEdge_isCsrOf n adj, csrOfEdge_isCsrOf n _⟩
+
+/-- ★ `core_relabel_equivariant` (specification level): the core number of `π v` in the renumbered graph is the core
+    number of `v` in the graph — for the definition (`IsCoreNumber`) and for its executable form -/
+theorem core_relabel_equivariant_spec {n : Nat} {π πinv : Nat → Nat} (hp : SkNet.WL.IsPerm n π πinv)
+    (adj : Nat → Nat → Bool) (v : Nat) (hv : v < n) :
+    (∀ c, IsCoreNumber n (relabel πinv adj) (π v) c ↔ IsCoreNumber n adj v c) ∧
+      coreNumberSpec n (relabel πinv adj) (π v) = coreNumberSpec n adj v :=
+  ⟨fun c => isCoreNumber_relabel hp adj v c hv, coreNumberSpec_relabel hp adj v hv⟩
+
+/-- ★ `core_relabel_equivariant`: `get_core_decomposition` of the renumbered graph, read at `π v`, is
+    `get_core_decomposition` of the graph read at `v`, whatever CSR representation either graph is stored in -/
+theorem core_relabel_equivariant {n : Nat} {π πinv : Nat → Nat} (hp : SkNet.WL.IsPerm n π πinv)
+    (adj : Nat → Nat → Bool) (hsym : ∀ a b, adj a b = adj b a)
+    (indptr indices indptr' indices' : List Nat) (hcsr : IsCsrOf n adj indptr indices)
+    (hcsr' : IsCsrOf n (relabel πinv adj) indptr' indices') :
+    ∃ labels labels' : List Int, computeCore indptr indices = some labels ∧
+      computeCore indptr' indices' = some labels' ∧
+      ∀ v, v < n → labels'.getD (π v) 0 = labels.getD v 0 := by
+  refine ⟨_, _, core_exact_spec_csr n adj hsym indptr indices hcsr,
+    core_exact_spec_csr n _ (relabel_symm πinv adj hsym) indptr' indices' hcsr', ?_⟩
+  intro v hv
+  rw [tab_getD, tab_getD, if_pos (hp.lt v hv), if_pos hv, coreNumberSpec_relabel hp adj v hv]
+
+/-- ★ the clustering coefficient of the renumbered matrix is the clustering coefficient of the matrix (including
+    the `nan` case), sequentially and under any two valid schedules -/
+theorem clustering_relabel_invariant {n : Nat} {π πinv : Nat → Nat} (hp : SkNet.WL.IsPerm n π πinv)
+    (val : Nat → Nat → Rat) (s s' : Option Schedule) (hs : ∀ sch, s = some sch → sch.Valid n)
+    (hs' : ∀ sch, s' = some sch → sch.Valid n) :
+    clusteringCoefficient n n (fun i j => val (πinv i) (πinv j)) s = clusteringCoefficient n n val s' := by
+  rw [clustering_coefficient_eq n _ s hs, clustering_coefficient_eq n val s' hs']
+  have hrel : symEdge (fun i j => val (πinv i) (πinv j)) = relabel πinv (symEdge val) := rfl
+  have hsym : ∀ a b, symEdge val a b = symEdge val b a := by
+    intro a b; unfold symEdge; rw [Rat.add_comm]
+  rw [hrel, clusteringSpec_relabel hp (symEdge val) hsym]
+
+/-- the number of connected triples is unchanged as well -/
+theorem triples_relabel_invariant {n : Nat} {π πinv : Nat → Nat} (hp : SkNet.WL.IsPerm n π πinv)
+    (adj : Nat → Nat → Bool) : tripleCount n (relabel πinv adj) = tripleCount n adj :=
+  tripleCount_relabel hp adj
 
 /-! ### the property, assembled -/
 
